@@ -137,6 +137,8 @@ def check_reader(ctx, prefix, fi, kind, mode, slots):
     res = fabio.analyse(prog, fi, roles, prefix)
     ip = res.interp
     fabio.report_generic(ctx, res, prefix)
+    from vk import pools as _pools
+    _pools.rule_arg_mutation(ctx, prefix, fi)
     sel = Num.atom(sel_atom)
     # positioning -----------------------------------------------------------
     opens = res.events("open")
